@@ -93,6 +93,18 @@ def oracle_c13(case, lo):
                 fails.append("get_indices_from_sponge returned %d positions for t=%d" % (len(ix), t))
             if any(int(i) >= n for i in ix):
                 fails.append("get_indices_from_sponge returned a position outside the codeword (n=%d)" % n)
+            # the positions must be the squeezed bytes (big-endian) reduced mod n: recomputed here, independently
+            # of the extracted model, from the bytes the library's own sponge handed out
+            sq = case.meta.get("_lib_in", {})
+            want = []
+            k = 0
+            while ("sq.%d" % k) in sq:
+                want.append(str(int.from_bytes(bytes(int(b) for b in sq["sq.%d" % k]), "big") % n))
+                k += 1
+            if want and len(want) == len(ix) and want != ix:
+                j = [a != b for a, b in zip(want, ix)].index(True)
+                fails.append("get_indices_from_sponge(n=%d): position %s is not the transcript bytes reduced mod n (%s): "
+                             "the spot checks are no longer uniform over the codeword" % (n, ix[j], want[j]))
     elif sub == "proofshape":
         sh = lib_toks(lo, "shape")
         dims = lib_toks(lo, "dims")
@@ -107,6 +119,19 @@ def oracle_c13(case, lo):
                 fails.append("%s honest proof opens a position outside the codeword" % case.fields["scheme"][0])
         if lib_s(lo, "check") not in (None, "accept"):
             fails.append("%s honest single opening not accepted" % case.fields["scheme"][0])
+        if dims:
+            sq = case.meta.get("_lib_in", {})
+            n_ext = int(dims[2])
+            want = []
+            k = 0
+            while ("sq.%d" % k) in sq:
+                want.append(str(int.from_bytes(bytes(int(b) for b in sq["sq.%d" % k]), "big") % n_ext))
+                k += 1
+            got = [i for i in (lib_toks(lo, "leaf_idx") or []) if i != "-"]
+            if want and len(want) == len(got) and want != got:
+                bad = sum(1 for a, b in zip(want, got) if a != b)
+                fails.append("%s honest proof: %d of %d opened positions are not the transcript bytes reduced mod n (n=%d)"
+                             % (case.fields["scheme"][0], bad, len(got), n_ext))
     elif sub == "encode":
         if lib_s(lo, "encode") == "ok" and lib_s(lo, "linear") != "holds":
             fails.append("%s row encoding is not linear: E(a*x+b*y) != a*E(x)+b*E(y)" % case.fields["scheme"][0])
